@@ -1,0 +1,29 @@
+//go:build verif
+
+package common
+
+import (
+	"sync/atomic"
+)
+
+// VerifHook is installed by the verification harness (build tag `verif`).
+// It is called at every hook point with the instance id returned by VerifNew,
+// the point's name and cheap scalar arguments. It may block: the harness uses
+// that to force schedules.
+var VerifHook atomic.Value // of func(id uint64, point string, kv ...interface{})
+
+var verifCounter uint64
+
+// VerifNew allocates an id for one instance of an instrumented component.
+func VerifNew(kind string) uint64 {
+	id := atomic.AddUint64(&verifCounter, 1)
+	VerifPoint(id, kind+".new")
+	return id
+}
+
+// VerifPoint reports that instance id reached the named point.
+func VerifPoint(id uint64, point string, kv ...interface{}) {
+	if h, ok := VerifHook.Load().(func(uint64, string, ...interface{})); ok && h != nil {
+		h(id, point, kv...)
+	}
+}
